@@ -47,6 +47,6 @@ def queries(tier):
     return qs
 
 MANIFEST = {
-    "text": "Bounded symbolic check of the real pair1/pair.c and pair0/pair.c: skeletons from sock_init; a second peer is refused with EBUSY while the first is attached and accepted after it left; accepted messages are conserved, ordered, never duplicated; send blocks instead of discarding; one query takes ANY 32-bit hop header with ANY ttl 1..15: > 0xff or short disconnects, > ttl is dropped and the receive re-armed, otherwise delivered with that header; outgoing hop count incremented by exactly one.",
+    "text": "Bounded symbolic check of the real pair1/pair.c and pair0/pair.c: skeletons from sock_init; a second peer is refused with EBUSY while the first is attached and accepted after it left; accepted messages are conserved, ordered, never duplicated; send blocks instead of discarding; one query takes ANY 32-bit hop header with ANY ttl 1..15: > 0xff or short disconnects, > ttl is dropped and the receive re-armed, otherwise delivered with that header; outgoing hop count incremented by exactly one. Also back-pressure with a send buffer: buffered messages go first, blocked senders join the tail.",
     "note": "aio framework and messages are verified models; polyamorous mode outside the claim.",
 }
